@@ -7,10 +7,13 @@ from discopy.drawing import Node, draw_box, add_drawing_attributes
 def draw_discard(backend, positions, node, **params):
     """ Draws a :class:`discopy.quantum.circuit.Discard` box. """
     box, depth = node.box, node.depth
-    left_dom, right_dom = (
-        Node("dom", obj=box.dom[i], i=i, depth=depth)
-        for i in [0, len(box.dom) - 1])
-    left, right = (positions[n][0] for n in [left_dom, right_dom])
+    if box.dom:
+        left_dom, right_dom = (
+            Node("dom", obj=box.dom[i], i=i, depth=depth)
+            for i in [0, len(box.dom) - 1])
+        left, right = (positions[n][0] for n in [left_dom, right_dom])
+    else:  # nothing is discarded: the symbol sits where the box is
+        left = right = positions[node][0]
     left, right = left - .25, right + .25
     height = positions[node][1] + .25
     for i in range(3):
